@@ -21,45 +21,44 @@ verus! {
 //@lift feos-dft/src/profile/mod.rs DFTProfile::integrate_reduced_segments
 //@end
 
-/// the scatter result at k is the value stored by SOME index i with idx(i) == k - if there is one - and the old value
-/// otherwise (induction over the number of stores)
-proof fn lemma_scatter(n: int, idx: spec_fn(int) -> int, val: spec_fn(int) -> real, old: RArr, k: int)
-    requires n >= 0
+/// the result of the ordered replacement at k is the value stored by SOME list position i with list[i] == k - if there
+/// is one - and the old value otherwise (induction over the number of stores)
+proof fn lemma_scatter(list: Seq<int>, n: int, val: spec_fn(int) -> real, old: RArr, k: int)
+    requires 0 <= n <= list.len()
     ensures
-        scatter(n, idx, val, old).len == old.len,
-        (exists|i: int| 0 <= i < n && #[trigger] idx(i) == k) ==> (exists|i: int| 0 <= i < n && idx(i) == k && #[trigger] val(i) == (scatter(n, idx, val, old).at)(k)),
-        (forall|i: int| 0 <= i < n ==> #[trigger] idx(i) != k) ==> (scatter(n, idx, val, old).at)(k) == (old.at)(k),
+        scatter_seq(list, n, val, old).len == old.len,
+        (exists|i: int| 0 <= i < n && #[trigger] list[i] == k) ==> (exists|i: int| 0 <= i < n && list[i] == k && #[trigger] val(i) == (scatter_seq(list, n, val, old).at)(k)),
+        (forall|i: int| 0 <= i < n ==> #[trigger] list[i] != k) ==> (scatter_seq(list, n, val, old).at)(k) == (old.at)(k),
     decreases n
 {
     if n > 0 {
-        lemma_scatter(n - 1, idx, val, old, k);
-        if idx(n - 1) == k {
-            assert(val(n - 1) == (scatter(n, idx, val, old).at)(k));
-        } else if exists|i: int| 0 <= i < n && #[trigger] idx(i) == k {
-            let i0 = choose|i: int| 0 <= i < n && #[trigger] idx(i) == k;
-            assert(0 <= i0 < n - 1 && idx(i0) == k);
-            let i1 = choose|i: int| 0 <= i < n - 1 && idx(i) == k && #[trigger] val(i) == (scatter(n - 1, idx, val, old).at)(k);
-            assert(val(i1) == (scatter(n, idx, val, old).at)(k));
+        lemma_scatter(list, n - 1, val, old, k);
+        if list[n - 1] == k {
+            assert(val(n - 1) == (scatter_seq(list, n, val, old).at)(k));
+        } else if exists|i: int| 0 <= i < n && #[trigger] list[i] == k {
+            let i0 = choose|i: int| 0 <= i < n && #[trigger] list[i] == k;
+            assert(0 <= i0 < n - 1 && list[i0] == k);
+            let i1 = choose|i: int| 0 <= i < n - 1 && list[i] == k && #[trigger] val(i) == (scatter_seq(list, n - 1, val, old).at)(k);
+            assert(val(i1) == (scatter_seq(list, n, val, old).at)(k));
         }
     }
 }
-
-/// the same for every initial array (so that it applies to the very term of the lifted code)
-proof fn lemma_scatter_all(n: int, idx: spec_fn(int) -> int, val: spec_fn(int) -> real, k: int)
-    requires n >= 0
-    ensures forall|old: RArr| {
-        let r = #[trigger] scatter(n, idx, val, old);
+/// the same for every value function and initial array (so that it applies to the very terms of the lifted code without
+/// naming them: a variant of the code is refuted, not rejected)
+proof fn lemma_scatter_all(list: Seq<int>, k: int)
+    ensures forall|val: spec_fn(int) -> real, old: RArr| {
+        let r = #[trigger] scatter_seq(list, list.len() as int, val, old);
         &&& r.len == old.len
-        &&& ((exists|i: int| 0 <= i < n && #[trigger] idx(i) == k) ==> (exists|i: int| 0 <= i < n && idx(i) == k && #[trigger] val(i) == (r.at)(k)))
-        &&& ((forall|i: int| 0 <= i < n ==> #[trigger] idx(i) != k) ==> (r.at)(k) == (old.at)(k))
+        &&& ((exists|i: int| 0 <= i < list.len() && #[trigger] list[i] == k) ==> (exists|i: int| 0 <= i < list.len() && list[i] == k && #[trigger] val(i) == (r.at)(k)))
+        &&& ((forall|i: int| 0 <= i < list.len() ==> #[trigger] list[i] != k) ==> (r.at)(k) == (old.at)(k))
     }
 {
-    assert forall|old: RArr| {
-        let r = #[trigger] scatter(n, idx, val, old);
+    assert forall|val: spec_fn(int) -> real, old: RArr| {
+        let r = #[trigger] scatter_seq(list, list.len() as int, val, old);
         &&& r.len == old.len
-        &&& ((exists|i: int| 0 <= i < n && #[trigger] idx(i) == k) ==> (exists|i: int| 0 <= i < n && idx(i) == k && #[trigger] val(i) == (r.at)(k)))
-        &&& ((forall|i: int| 0 <= i < n ==> #[trigger] idx(i) != k) ==> (r.at)(k) == (old.at)(k))
-    } by { lemma_scatter(n, idx, val, old, k); }
+        &&& ((exists|i: int| 0 <= i < list.len() && #[trigger] list[i] == k) ==> (exists|i: int| 0 <= i < list.len() && list[i] == k && #[trigger] val(i) == (r.at)(k)))
+        &&& ((forall|i: int| 0 <= i < list.len() ==> #[trigger] list[i] != k) ==> (r.at)(k) == (old.at)(k))
+    } by { lemma_scatter(list, list.len() as int, val, old, k); }
 }
 
 /// C16.3: every component that owns a segment receives the integral of one of its OWN segments (segment i belongs to
@@ -74,16 +73,7 @@ pub proof fn contract_c16_3_segments_to_components(p: L_DFTProfile, prof: L_Prof
         &&& (forall|i: int| 0 <= i < ci.len() ==> #[trigger] ci[i] != k) ==> (r.at)(k) == 0real
     }),
 {
-    let ci = component_index(p.dft);
-    let seg = integrate_comp(p, prof);
-    let idx = integrate_segments__scatter_idx0(p);
-    let val = integrate_segments__scatter_val0(seg, p);
-    lemma_scatter_all(ci.len() as int, idx, val, k);
-    assert forall|i: int| 0 <= i < ci.len() implies #[trigger] idx(i) == ci[i] && val(i) == (seg.at)(i) by {}
-    if exists|i: int| 0 <= i < ci.len() && #[trigger] ci[i] == k {
-        let i0 = choose|i: int| 0 <= i < ci.len() && #[trigger] ci[i] == k;
-        assert(idx(i0) == k);
-    }
+    lemma_scatter_all(component_index(p.dft), k);
 }
 /// ... and the same for the reduced twin used by the solver
 pub proof fn contract_c16_3_reduced_segments_to_components(p: L_DFTProfile, prof: L_Prof, k: int)
@@ -96,16 +86,7 @@ pub proof fn contract_c16_3_reduced_segments_to_components(p: L_DFTProfile, prof
         &&& (forall|i: int| 0 <= i < ci.len() ==> #[trigger] ci[i] != k) ==> (r.at)(k) == 0real
     }),
 {
-    let ci = component_index(p.dft);
-    let seg = integrate_reduced_comp(p, prof);
-    let idx = integrate_reduced_segments__scatter_idx0(p);
-    let val = integrate_reduced_segments__scatter_val0(seg, p);
-    lemma_scatter_all(ci.len() as int, idx, val, k);
-    assert forall|i: int| 0 <= i < ci.len() implies #[trigger] idx(i) == ci[i] && val(i) == (seg.at)(i) by {}
-    if exists|i: int| 0 <= i < ci.len() && #[trigger] ci[i] == k {
-        let i0 = choose|i: int| 0 <= i < ci.len() && #[trigger] ci[i] == k;
-        assert(idx(i0) == k);
-    }
+    lemma_scatter_all(component_index(p.dft), k);
 }
 } // verus!
 fn main() {}
